@@ -1279,6 +1279,17 @@ impl Gen {
                 }
             }
             90..=93 if self.sys.cfg.sync => {
+                // half of the time join two existing groups: give the root of a group (children, no
+                // parent) a parent elsewhere, so that no new node enters the relation graph
+                let roots: Vec<usize> = (0..self.sys.ents.len())
+                    .filter(|&i| self.sys.alive[i])
+                    .filter(|&i| {
+                        let w = self.sys.server.world();
+                        let id = self.sys.ents[i].unwrap();
+                        w.get::<Children>(id).is_some_and(|c| !c.is_empty()) && w.get::<ChildOf>(id).is_none()
+                    })
+                    .collect();
+                let e = if !roots.is_empty() && self.rng.chance(1, 2) { *self.rng.pick(&roots) } else { e };
                 if let Some(p) = self.live() { self.step(format!("rel {e} {p}")); }
             }
             94..=95 if self.sys.cfg.sync => self.step(format!("unrel {e}")),
@@ -1349,6 +1360,44 @@ impl Gen {
         }
         if self.sys.cfg.auth == "custom" {
             for c in 0..nclients { if self.rng.chance(1, 2) { self.step(format!("auth {c}")); } }
+        }
+        if profile == "sys_split" && self.sys.cfg.sync && self.rng.chance(1, 3) {
+            // two groups that are replicated and known, then joined by an edge between existing
+            // nodes of the relation graph, then mutated together against a small message size
+            let base = self.next_ent;
+            for _ in 0..4 {
+                let e = self.next_ent;
+                self.next_ent += 1;
+                let l = self.rng.range(10, 60);
+                self.step(format!("spawn {e} m=1 L={l}"));
+            }
+            self.step(format!("rel {} {}", base + 1, base));
+            self.step(format!("rel {} {}", base + 3, base + 2));
+            for _ in 0..2 {
+                self.step("sframe tick=1".into());
+                self.network(0);
+                self.step("cframe 0".into());
+                self.network(0);
+            }
+            let other = base + 2 + self.rng.below(2) as usize;
+            self.step(format!("rel {base} {other}"));
+            if self.rng.chance(1, 2) {
+                self.step("sframe tick=1".into());
+                self.network(0);
+                self.step("cframe 0".into());
+            }
+            let m = *self.rng.pick(&[60u64, 80, 100, 140]);
+            self.step(format!("maxsize 0 {m}"));
+            for i in 0..4 {
+                if self.rng.chance(4, 5) {
+                    let l = self.rng.range(10, 60);
+                    self.step(format!("mut {} L={l}", base + i));
+                }
+            }
+            self.step("sframe tick=1".into());
+            let mood = self.rng.below(6);
+            self.network(mood);
+            self.step("cframe 0".into());
         }
         let steps = self.rng.range(6, 40);
         let mut mood = self.rng.below(6);
